@@ -480,6 +480,33 @@ def _enum_costforms(maxlen: int):
                 yield {'kind': 'costform', 'form': form['text'], 'ops': list(seq)}
 
 
+def _enum_attached():
+    """Every node-accepting slot and list of every class, in each presence state: assignment of a node that still lives elsewhere in the document."""
+    import collections
+    from vf.gen import sweeps
+    count: collections.Counter = collections.Counter()
+    for g, chunks, root in sweeps.sweep_docs(400, seed=1919):
+        for m, p, cname, mi in OPS.candidates(root, {'opt', 'req', 'copt', 'uopt', 'list', 'clist', 'fview', 'rawmeta'}):
+            if p.kind in ('opt', 'req', 'copt', 'uopt'):
+                try:
+                    present = getattr(m, p.name) is not None
+                except Exception:  # noqa: BLE001
+                    continue
+                variants = [{}]
+            else:
+                present = len(getattr(m, p.name)) > 0
+                variants = [{'op': 'append'}, {'op': 'setslice', 'i': 0, 'j': 1}, {'op': 'extend'}]
+            key = (cname, p.name, present)
+            if count[key] >= 2:
+                continue
+            count[key] += 1
+            for v in variants:
+                nfresh = 1 if v.get('op') in ('setslice', 'extend') else 0
+                yield {'dirs': chunks, 'dirs2': chunks, 'ops': [{'f': 'bad', 'k': 'attached', 'dst': {'cls': cname, 'mi': mi, 'prop': p.name, **v}, 'sel': count[key] * 7,
+                                                                 'src_other': False, 'pos': nfresh, 'fresh': [OPS.donor_for(g, m, p) for _ in range(nfresh)], 'fresh2': []}]}
+
+
 def jobs(tier: str) -> list[Job]:
     return [Job('refusals', 'hyp', lambda: _build(tier), 4000 if tier == 'quick' else 150000),
+            Job('attached-sweep', 'enum', _enum_attached, exhaustive=True),
             Job('cost-forms', 'enum', lambda: _enum_costforms(2 if tier == 'quick' else 3), exhaustive=True)]
